@@ -372,8 +372,9 @@ end Link
 /-! ### soft de-duplication (`SoftSurfaceEqual`, used by `LocalSurfaceInserter`)
 `Close se a b`: same class and EVERY coefficient group within tolerance — scalars
 |x − y| < max(abs, rel·max(|x|,|y|)) (position, displacement, zeroth, √radius², √tan²), vector groups
-‖u − v‖ < max(abs, abs·max(‖u‖,‖v‖)) (origin, second, cross, first; `abs` in the relative term AS
-WRITTEN in `soft_eq_distance`), plane normals 0 < n·n' and 1/(n·n')² − 1 ≤ rel² + ε. -/
+‖u − v‖ < max(abs, rel·max(‖u‖,‖v‖)) (origin, second, cross, first: the documented SoftEqual
+tolerance, `soft_eq_distance` after fix 1450523), plane normals 0 < n·n' and
+1/(n·n')² − 1 ≤ rel² + ε. -/
 
 /-- ★ two surfaces compare soft-equal iff they are of the same class and every coefficient group
     differs by at most the tolerance; in particular no group (e.g. the cross terms of a general
@@ -386,9 +387,9 @@ theorem softEqual_implies_close (se : SoftEq ℝ) (a b : Surface ℝ) :
 theorem softEqual_gq_cross_close (se : SoftEq ℝ) (a b c d e f g h i j a' b' c' d' e' f' g' h' i' j' : ℝ)
     (hq : softEq se (.generalQuadric a b c d e f g h i j)
       (.generalQuadric a' b' c' d' e' f' g' h' i' j') = true) :
-    |d' - d| < max se.abs (se.abs * max (nrm ⟨d, e, f⟩) (nrm ⟨d', e', f'⟩))
-    ∧ |e' - e| < max se.abs (se.abs * max (nrm ⟨d, e, f⟩) (nrm ⟨d', e', f'⟩))
-    ∧ |f' - f| < max se.abs (se.abs * max (nrm ⟨d, e, f⟩) (nrm ⟨d', e', f'⟩)) := by
+    |d' - d| < max se.abs (se.rel * max (nrm ⟨d, e, f⟩) (nrm ⟨d', e', f'⟩))
+    ∧ |e' - e| < max se.abs (se.rel * max (nrm ⟨d, e, f⟩) (nrm ⟨d', e', f'⟩))
+    ∧ |f' - f| < max se.abs (se.rel * max (nrm ⟨d, e, f⟩) (nrm ⟨d', e', f'⟩)) := by
   have hc := (softEq_iff_close se _ _).mp hq
   simp only [Close] at hc
   exact closeV_components se ⟨d, e, f⟩ ⟨d', e', f'⟩ hc.2.1
